@@ -129,6 +129,55 @@ func (p *Prog) CallGraph() *CallGraph {
 		}
 		ast.Inspect(fn.Decl.Body, visit)
 	}
+	// package-level initialisers: a function referenced (or called) from `var x = …` is reachable
+	// from the package's initialisation; the pseudo caller "<pkg>.<init>" makes every who-may-call
+	// rule see that route.
+	for _, pkg := range p.All {
+		info := pkg.TypesInfo
+		rel := relPkg(pkg.PkgPath)
+		if rel == "" {
+			rel = "coercion"
+		}
+		for _, f := range pkg.Syntax {
+			for _, d := range f.Decls {
+				gd, ok := d.(*ast.GenDecl)
+				if !ok || gd.Tok != token.VAR {
+					continue
+				}
+				for _, sp := range gd.Specs {
+					vs, ok := sp.(*ast.ValueSpec)
+					if !ok {
+						continue
+					}
+					for _, v := range vs.Values {
+						ast.Inspect(v, func(n ast.Node) bool {
+							switch x := n.(type) {
+							case *ast.FuncLit:
+								return false // bodies of literals stored in variables are not analysed as callers here
+							case *ast.CallExpr:
+								if fo, ok := typeutil.Callee(info, x).(*types.Func); ok {
+									g.add(CallEdge{Caller: rel + ".<init>", Callee: FuncKey(fo), Pos: x.Pos(), Call: x})
+								}
+							case *ast.SelectorExpr:
+								if s := info.Selections[x]; s != nil && (s.Kind() == types.MethodVal || s.Kind() == types.MethodExpr) {
+									g.add(CallEdge{Caller: rel + ".<init>", Callee: FuncKey(s.Obj().(*types.Func)), Pos: x.Pos(), Ref: true})
+								} else if s == nil {
+									if fo, ok := info.Uses[x.Sel].(*types.Func); ok {
+										g.add(CallEdge{Caller: rel + ".<init>", Callee: FuncKey(fo), Pos: x.Pos(), Ref: true})
+									}
+								}
+							case *ast.Ident:
+								if fo, ok := info.Uses[x].(*types.Func); ok {
+									g.add(CallEdge{Caller: rel + ".<init>", Callee: FuncKey(fo), Pos: x.Pos(), Ref: true})
+								}
+							}
+							return true
+						})
+					}
+				}
+			}
+		}
+	}
 	p.cg = g
 	return g
 }
